@@ -60,7 +60,7 @@ PROPS = {
     },
     "C10": {
         "runs": [{"mode": "native-dev", "bin": "c10"}],
-        "expect_monitors": ["mix", "lighten_darken", "saturate_desaturate", "hue_ops_and_schemes", "component_arithmetic"],
+        "expect_monitors": ["mix", "lighten_darken", "saturate_desaturate", "hue_ops_and_schemes", "component_arithmetic", "clamp_variants"],
         "assumptions": ASSUME_COMMON + ["documented operator semantics typed in harness/src/bin/c10.rs: lerp with clamped factor, shortest hue arc, relative lighten = component + room * factor towards the documented limit, fixed lighten = component + max * amount, colour schemes as fixed hue shifts"],
     },
     "C09": {
